@@ -40,31 +40,62 @@ def gen_wrapped(rng, tier, n, classes=None, p_cons=0.6):
   return d
 
 
-def gen_mf(rng, tier, n, ident, kmax=4, classes=None, p_ratio=0.35):
+SPECIAL_FLOWS = ['e', 'h[2]', 'g(1)', 'w+x']
+ID_TAILS = ['e', 'h', 'g', '', '', '', '_e', '-h', '(1)', '[2]', '+x', '(a)b']
+FIXED_LABELS = ['e', 'h', 'g', 'zz', '.e', '_e', '.h', '(1)', '[2]', '+x', 'x', '1)', ']', '.', 'e(1)', '2]']
+
+
+def gen_mf(rng, tier, n, ident, kmax=4, classes=None, p_ratio=0.35, special=False):
   d = gen_wrapped(rng, tier, n, classes)
   k = rng.choice([1, 2, 2, 3, 4][:kmax + 1]) if kmax >= 4 else rng.randint(1, kmax)
-  t = {'k': 'mf', 'id': ident, 'dev': d, 'flows': FLOW_NAMES[:k], 'ratios': None}
+  names = SPECIAL_FLOWS if (special and rng.random() < 0.25) else FLOW_NAMES
+  t = {'k': 'mf', 'id': ident, 'dev': d, 'flows': names[:k], 'ratios': None}
   if k == 2 and rng.random() < p_ratio:
     t['ratios'] = [fs(dy(rng, 1, 3)), fs(dy(rng, 1, 3))]
     t['ctype'] = rng.choice(['eq', 'ineq'])
   return t
 
 
-def gen_set_tree(rng, tier='quick', n=None, depth=None):
+def label_pool(rng, ids):
+  """candidate labels for a set whose rows have the qualified ids `ids`: plain suffixes, suffixes that
+  cross the separator (`m3.e`, `.e`, `s2.a1`), whole paths, characters that are special in regular
+  expressions, labels matching nothing."""
+  pool = list(FIXED_LABELS)
+  for q in rng.sample(ids, min(len(ids), 4)):
+    parts = q.split('.')
+    pool += [parts[-1], '.' + parts[-1], '.'.join(parts[-2:]), q, q[1:]]
+    pool += [q[-j:] for j in rng.sample(range(1, len(q) + 1), min(len(q), 3))]
+  return sorted(set(x for x in pool if x))
+
+
+def nested_pair(rng, ids):
+  """two labels, one a proper suffix of the other (`heat` / `wasteheat`), both matching some row."""
+  q = rng.choice(ids)
+  if len(q) < 2:
+    return []
+  j2 = rng.randint(2, min(len(q), 6)); j1 = rng.randint(1, j2 - 1)
+  pair = [q[-j1:], q[-j2:]]
+  rng.shuffle(pair)
+  return pair
+
+
+def gen_set_tree(rng, tier='quick', n=None, depth=None, dup=False):
   """a random device tree whose sets exercise every kind of own constraint.  Aggregate bounds are
-  left as a *mode* (`_sbmode`); `craft` fixes their values around a base matrix."""
+  left as a *mode* (`_sbmode`); `craft` fixes their values around a base matrix.
+  `dup`: give two sibling blocks of one (sub-balanced) set the same id (DeviceSet accepts that)."""
   n = n or gen.pick_n(rng, tier, 6 if tier == 'quick' else 10)
   depth = depth if depth is not None else rng.choice([1, 2, 2, 3])
   counter = [0]
-  def fresh(prefix, suffix=False):
+  state = {'dup': dup}
+  def fresh(prefix, tails=None):
     counter[0] += 1
-    return '%s%d%s' % (prefix, counter[0], rng.choice(['e', 'h', 'g', '', '']) if suffix else '')
-  def leaf():
+    return '%s%d%s' % (prefix, counter[0], rng.choice(tails) if tails else '')
+  def leaf(ident=None):
     cls = rng.choice(['Device', 'Device', 'CDevice', 'CDevice2', 'IDevice', 'IDevice2', 'GDevice', 'PVDevice', 'SDevice', 'TDevice', 'ADevice'])
     d = gen.gen_leaf(rng, tier, [cls], n=n)
     if cls == 'ADevice' and rng.random() < 0.5:
       d['ucons'] = gen.gen_ucons(rng, n, [F(x) for x in d['lb']], [F(x) for x in d['hb']])
-    return {'k': 'leaf', 'id': fresh(rng.choice(['a', 'b', 'e', 'h', 'g']), True), 'dev': d}
+    return {'k': 'leaf', 'id': ident or fresh(rng.choice(['a', 'b', 'e', 'h', 'g', 'x']), ID_TAILS), 'dev': d}
   def node(dep, root=False):
     kids = []
     for _ in range(rng.randint(1 if not root else 2, 4 if root else 3)):
@@ -72,21 +103,45 @@ def gen_set_tree(rng, tier='quick', n=None, depth=None):
       if dep > 1 and r < 0.35:
         kids.append(node(dep - 1))
       elif r < 0.55:
-        kids.append(gen_mf(rng, tier, n, fresh('m'), kmax=3))
+        kids.append(gen_mf(rng, tier, n, fresh(rng.choice(['m', 'm', 'x'])), kmax=3, special=True))
       else:
         kids.append(leaf())
+      # a sibling that differs from a nested row only in the separator: `x3_e` next to `x3.e`
+      last = kids[-1]
+      if last['k'] != 'leaf' and rng.random() < 0.35:
+        sub = rng.choice(fqids(last)).split('.')
+        kids.append(leaf(sub[0] + rng.choice(['_', '-', '']) + sub[-1]))
     t = {'k': 'node', 'id': 'root' if root else fresh(rng.choice(['s', 's', 'e', 'h'])), 'sb': None, 'ch': kids, 'sub': False,
          '_sbmode': rng.choice([None, 'ineq', 'ineq', 'eq', 'mixed', 'mixed', 'mixed'])}
-    if rng.random() < 0.5:
+    force = False
+    same = [k for k in ('leaf', 'mf') if sum(c['k'] == k for c in kids) >= 2]
+    if state['dup'] and same:
+      kind = rng.choice(same)
+      a, b = rng.sample([c for c in kids if c['k'] == kind], 2)
+      b['id'] = a['id']
+      state['dup'] = False; force = True; t['_dup'] = True
+    if force or rng.random() < 0.5:
       t['sub'] = True
-      ids = [x.split('.')[-1] for x in fqids(t)]
-      pool = ['e', 'h', 'g', 'zz'] + [i[-2:] for i in ids if len(i) >= 2] + [rng.choice(ids)]
-      t['labels'] = rng.sample(sorted(set(pool)), min(len(set(pool)), rng.randint(1, 3)))
+      ids = fqids(t)
+      labels = nested_pair(rng, ids) if rng.random() < 0.35 else []
+      pool = [x for x in label_pool(rng, ids) if x not in labels]
+      want = max(len(labels), rng.randint(1, 3))
+      labels += rng.sample(pool, min(len(pool), want - len(labels)))
+      twice = [x for x in ids if ids.count(x) > 1]
+      if force and twice and rng.random() < 0.7:   # make the duplicate matter: a label of a row at or after it
+        q = rng.choice(ids[ids.index(twice[0]):])
+        labels[0] = q.split('.')[-1]
+      t['labels'] = labels
       t['ctype'] = rng.choice(['eq', 'eq', 'ineq'])
       t['sign'] = rng.choice(['1', '1', '-1', '-1', '2', '-1/2'])
       t['rem'] = rng.random() < 0.45
     return t
   return node(depth, root=True), n
+
+
+def has_duplicate_ids(t):
+  q = fqids(t)
+  return len(set(q)) != len(q)
 
 
 # ---------------------------------------------------------------- structure helpers
